@@ -799,7 +799,12 @@ pub fn run_tbl(toks: &[&str]) -> String {
             };
             let e = build(op, &mut hs);
             let refs = refs_str(&mut hs);
+            // MCFG / XSDT entries have no public type of their own: the entry "as the implementation
+            // serialises it" is what the table's image grows by
+            let in_table_only = matches!(e, Ent::Ecam(..) | Ent::XsdtEntry(..));
+            let before = if in_table_only { ser(tab.aml()).len() } else { 0 };
             let h = tab.add(e, &mut hs);
+            let raw = if in_table_only { ser(tab.aml())[before..].to_vec() } else { raw };
             (raw, h, refs)
         }));
         match r {
